@@ -128,7 +128,7 @@ func main() {
 		},
 		MinEvals:    300000,
 		MinDistinct: 20000,
-		Require: []string{"exhaustive_trees", "exhaustive_trees_E1", "exhaustive_trees_E2", "agree_accept", "agree_reject", "opaque_subsets_checked", "opaque_all_subsets_trees",
+		Require: []string{"e2e_unlock_conditions_spent_both_ways", "exhaustive_trees", "exhaustive_trees_E1", "exhaustive_trees_E2", "agree_accept", "agree_reject", "opaque_subsets_checked", "opaque_all_subsets_trees",
 			"uc_cases", "uc_accepted", "limit_cases", "address_matches_definition", "opaqued_branch_unusable", "corrupted_signature_rejected",
 			"corrupted_preimage_rejected", "leftover_witness_rejected", "random_trees", "random_trees_satisfied", "encoding_roundtrips",
 			"decode_depth_over_32_rejected", "decode_depth_within_32_accepted", "e2e_accept", "e2e_reject", "e2e_reject_by_height_lock", "e2e_reject_by_time_lock",
